@@ -16,43 +16,7 @@ func checkC02(r *Run) {
 	r.RequireOnSuccess("C02-R1", "visor/blockdb.pool.get",
 		req("reads the unspent pool bucket by the hash", "ok(visor/dbutil.GetBucketValueNoCopy($1, visor/blockdb.UnspentPoolBkt, $2[:]))"))
 
-	// R2
-	fn := r.fn("C02-R2", "visor.Blockchain.processTransactions")
-	if fn != nil {
-		ff := r.P.Facts(fn)
-		exits, facts := ff.SuccessFacts()
-		n := 0
-		for i, ex := range exits {
-			if _, m := matchAny([]string{"len(*) == 0"}, facts[i]); m {
-				continue // empty publisher block
-			}
-			n++
-			_, m1 := matchAny([]string{"forall(i < *)(j=(i + 1);j < *)(k < len(*[i].In))(i4 < len(*[j].In)): *[i].In[k] == *[j].In[i4] => $0.cfg.Arbitrating"}, facts[i])
-			r.Check("C02-R2", "processTransactions: two txns of a block sharing an input reject the block unless arbitrating (all pairs i<j, all inputs)", r.P.Pos(ex.Pos), m1, "pairwise double-spend check missing or not covering all pairs/inputs on a success path")
-			_, m2 := matchAny([]string{"forall(i < len(*))(j < len(*[i].Out)): * && lookup(set{coin.UxBody.Hash(*)}[coin.UxBody.Hash({Address: *[i].Out[j].Address, Coins: *[i].Out[j].Coins, Hours: *[i].Out[j].Hours, SrcTransaction: coin.Transaction.Hash(*[i])})])#1 => $0.cfg.Arbitrating"}, facts[i])
-			r.Check("C02-R2", "processTransactions: an output id created twice in a block rejects the block unless arbitrating", r.P.Pos(ex.Pos), m2, "duplicate-output check missing on a success path")
-		}
-		if n == 0 {
-			r.Fail("C02-R2", "processTransactions success exits", r.P.Pos(fn.Pos()), "none")
-		}
-		// arbitrating: the LATER transaction (index j) is the one skipped
-		found := false
-		for _, s := range ff.StoreFacts() {
-			if glob("*[j] := zero", s.S) || glob("φ(map{}|set{i})[j] := *", s.S) || glob("*set{*}[j] := *", s.S) {
-				var fs []string
-				for _, a := range ff.MustAt(s.In) {
-					fs = append(fs, a.S)
-				}
-				if _, m := matchAny([]string{"*[i].In[k] == *[j].In[i4]"}, fs); m {
-					found = true
-					r.Pass("C02-R2", "processTransactions: on an input conflict the later txn (index j > i) is skipped", r.P.Pos(s.In.Pos()), s.S)
-				}
-			}
-		}
-		if !found {
-			r.Fail("C02-R2", "processTransactions: on an input conflict the later txn (index j > i) is skipped", r.P.Pos(fn.Pos()), "no skip[j] update under the input-conflict condition")
-		}
-	}
+	ruleProcessTxnsConflicts(r, "C02-R2")
 	ruleBlockVerificationChain(r, "C02-R2b")
 	ruleUnspentPoolOwnership(r, "C02-R5")
 	ruleProcessBlockProvenance(r, "C02-R5b")
@@ -201,4 +165,47 @@ func checkC06(r *Run) {
 	r.RequireEveryIteration("C06-R5", "visor.UnconfirmedTransactionPool.Refresh", "visor.unconfirmedTxns.put")
 	r.RequireOnSuccess("C06-R5", "visor.UnconfirmedTransactionPool.Refresh",
 		req("every re-checked txn written back", "forall(i < len(*)): ok(visor.unconfirmedTxns.put($0.txns, $1, *))"))
+}
+
+// ruleProcessTxnsConflicts: intra-block conflicts (shared input, duplicate created
+// output) reject the block, or skip the later transaction when arbitrating; the
+// checks cover all pairs and all inputs (complete quantification).
+func ruleProcessTxnsConflicts(r *Run, rule string) {
+	// R2
+	fn := r.fn(rule, "visor.Blockchain.processTransactions")
+	if fn != nil {
+		ff := r.P.Facts(fn)
+		exits, facts := ff.SuccessFacts()
+		n := 0
+		for i, ex := range exits {
+			if _, m := matchAny([]string{"len(*) == 0"}, facts[i]); m {
+				continue // empty publisher block
+			}
+			n++
+			_, m1 := matchAny([]string{"forall(i < *)(j=(i + 1);j < *)(k < len(*[i].In))(i4 < len(*[j].In)): *[i].In[k] == *[j].In[i4] => $0.cfg.Arbitrating"}, facts[i])
+			r.Check(rule, "processTransactions: two txns of a block sharing an input reject the block unless arbitrating (all pairs i<j, all inputs)", r.P.Pos(ex.Pos), m1, "pairwise double-spend check missing or not covering all pairs/inputs on a success path")
+			_, m2 := matchAny([]string{"forall(i < len(*))(j < len(*[i].Out)): * && lookup(set{coin.UxBody.Hash(*)}[coin.UxBody.Hash({Address: *[i].Out[j].Address, Coins: *[i].Out[j].Coins, Hours: *[i].Out[j].Hours, SrcTransaction: coin.Transaction.Hash(*[i])})])#1 => $0.cfg.Arbitrating"}, facts[i])
+			r.Check(rule, "processTransactions: an output id created twice in a block rejects the block unless arbitrating", r.P.Pos(ex.Pos), m2, "duplicate-output check missing on a success path")
+		}
+		if n == 0 {
+			r.Fail(rule, "processTransactions success exits", r.P.Pos(fn.Pos()), "none")
+		}
+		// arbitrating: the LATER transaction (index j) is the one skipped
+		found := false
+		for _, s := range ff.StoreFacts() {
+			if glob("*[j] := zero", s.S) || glob("φ(map{}|set{i})[j] := *", s.S) || glob("*set{*}[j] := *", s.S) {
+				var fs []string
+				for _, a := range ff.MustAt(s.In) {
+					fs = append(fs, a.S)
+				}
+				if _, m := matchAny([]string{"*[i].In[k] == *[j].In[i4]"}, fs); m {
+					found = true
+					r.Pass(rule, "processTransactions: on an input conflict the later txn (index j > i) is skipped", r.P.Pos(s.In.Pos()), s.S)
+				}
+			}
+		}
+		if !found {
+			r.Fail(rule, "processTransactions: on an input conflict the later txn (index j > i) is skipped", r.P.Pos(fn.Pos()), "no skip[j] update under the input-conflict condition")
+		}
+	}
 }
